@@ -88,6 +88,11 @@ Definition is_mm_name (n : string) : bool :=
 (* reasons a field can be wrong; the explain twin returns them *)
 Inductive why := WWire | WDefault | WType | WValidator | WValOpt | WOmit | WMissing | WExtra | WDup | WNoClass.
 
+(* omit-if-default is what the metamodel says (written always iff special) — for an attribute WITH a default; without one the flag has
+   no effect (there is nothing to compare the value with), so nothing is demanded of it *)
+Definition omit_okb (f : fld) (q : prop) : bool :=
+  match fdefault f with NoDefault => true | _ => Bool.eqb (fomit f) (negb (is_special q)) end.
+
 Fixpoint smatch (n : nat) (s : spy) (p : pty) {struct n} : bool :=
   match n with O => false | S n =>
   let fields_ok (ps : list prop) (fs : list fld) : bool :=
@@ -96,7 +101,7 @@ Fixpoint smatch (n : nat) (s : spy) (p : pty) {struct n} : bool :=
                                            && dflt_eqb (fdefault f) (expected_default q)
                                            && smatch n (expected_type q) (ftype f)
                                            && vkind_eqb (fval f) (expected_vkind q) && Bool.eqb (fvalopt f) (expected_valopt q)
-                                           && Bool.eqb (fomit f) (negb (is_special q))) fs) ps in
+                                           && omit_okb f q) fs) ps in
   match s, p with
   | SUnion _, _ | _, PyUnion _ =>
       let ms := sflat s in let mp := pmembers 6 p in
@@ -120,7 +125,7 @@ Definition field_why (q : prop) (f : fld) : list why :=
   ++ (if smatch SM_FUEL (expected_type q) (ftype f) then [] else [WType])
   ++ (if vkind_eqb (fval f) (expected_vkind q) then [] else [WValidator])
   ++ (if Bool.eqb (fvalopt f) (expected_valopt q) then [] else [WValOpt])
-  ++ (if Bool.eqb (fomit f) (negb (is_special q)) then [] else [WOmit]).
+  ++ (if omit_okb f q then [] else [WOmit]).
 Definition field_ok (q : prop) (f : fld) : bool := is_nil_b (field_why q f).
 
 (* one class against a property list: every property has exactly one attribute (by wire name) that is right; nothing extra *)
